@@ -58,6 +58,27 @@ def fmt_twice_same_args(src, width):
     return a, b
 
 
+def fmt_cli_png(src, width, workdir):
+    """`p8tool luafmt --indentwidth N cart.p8.png` -> code stored in cart_fmt.p8.png (reference reader and decoder)."""
+    import os
+    from pico8 import tool
+    from .. import refcodec as rc, carts
+    import random
+    regions, _ = carts.random_regions(random.Random(3), 'zero')
+    p1 = os.path.join(workdir, ambient.BASE[0] + '.p8.png')
+    pf = os.path.join(workdir, ambient.BASE[0] + '_fmt.p8.png')
+    if os.path.exists(pf):
+        os.remove(pf)
+    with open(p1, 'wb') as fh:
+        fh.write(rc.write_p8png(regions, rc.raw_code_area(src) if len(src) % 2 else rc.code_area_from_items(rc.c_greedy(src), len(src)), 8))
+    rcode = tool.main([ambient.vflag(), 'luafmt', '--indentwidth', str(width), p1])
+    if rcode:
+        raise RuntimeError('p8tool luafmt returned %r' % rcode)
+    with open(pf, 'rb') as fh:
+        r = rc.read_p8png(fh.read())
+    return rc.strip_future(rc.decode_code_area(r['code_area'], r['version']))
+
+
 def fmt_cli(src, width, workdir, overwrite=False):
     """`p8tool luafmt --indentwidth N cart.p8` -> code of cart_fmt.p8 (reference reader); with overwrite: `--overwrite`, code of
     cart.p8 itself afterwards."""
@@ -293,6 +314,20 @@ def check_one(ctx, src, width, case, metamorphic_rng=None):
             ctx.violation('p8tool luafmt --indentwidth %d writes different code than the library formatter at width %d (byte %d: %r vs %r)' % (
                 width, width, d, got[max(0, d - 20):d + 20], lib[max(0, d - 20):d + 20]), case)
             return
+        if ctx.monitors.get('cli_outputs_compared', 0) % 3 == 1 and b'\x00' not in src and len(src) < 12000:
+            # the same command on a .p8.png cart: the options reach the writer whatever the format of the cart
+            try:
+                gotp = fmt_cli_png(want, width, case['cli_dir'])
+            except Exception as e:
+                ctx.violation('p8tool luafmt --indentwidth %d failed on a .p8.png cart: %r' % (width, e), case)
+                return
+            ctx.monitor('cli_png_outputs_compared')
+            ctx.feature('cli_png_width_%d' % width)
+            if gotp not in (lib, lib + b'\n', lib.rstrip(b'\n')):
+                d = next((i for i in range(min(len(gotp), len(lib))) if gotp[i] != lib[i]), min(len(gotp), len(lib)))
+                ctx.violation('p8tool luafmt --indentwidth %d on a .p8.png cart writes different code than the library formatter at width %d '
+                              '(byte %d: %r vs %r)' % (width, width, d, gotp[max(0, d - 20):d + 20], lib[max(0, d - 20):d + 20]), case)
+                return
         # `luafmt --overwrite` on a cart whose code is already canonical except for blanks at its very end (and on the plain source)
         tails = (b'', b'\n', b'\n\n', b'  \n', b'\n \t\n', b'   ', b'\n\n\n')
         tail = tails[ctx.monitors.get('overwrite_runs', 0) % len(tails)]
@@ -583,6 +618,8 @@ def gates(m, tier):
     if f.get('formatted_code_exceeds_65535_chars', 0) < 1 or mon.get('overwrite_runs', 0) < 50:
         missed.append('command line: carts whose formatted code exceeds 65535 characters %d, --overwrite runs %d' % (
             f.get('formatted_code_exceeds_65535_chars', 0), mon.get('overwrite_runs', 0)))
+    if mon.get('cli_png_outputs_compared', 0) < 30:
+        missed.append('command line on .p8.png carts: %d' % mon.get('cli_png_outputs_compared', 0))
     if mon.get('lines_measured', 0) < 3000:
         missed.append('lines measured: %d' % mon.get('lines_measured', 0))
     return missed
